@@ -170,6 +170,10 @@ type SrvWorld struct {
 	ExtraViol          []*Violation
 	PoolStats          []simrt.PoolStat
 	wuChecked          int
+	FrameSizeViol      *Violation
+	allowedTable       int64
+	AckViol            *Violation
+	pendingTableLower  []int64                      // HEADER_TABLE_SIZE decreases waiting for their ACK, by SETTINGS index
 	atQuiescence       func(w *SrvWorld) *Violation // evaluated after phase 0 and phase 1 each reached quiescence
 
 	// receive-side ledger of the peer (C06): SETTINGS_INITIAL_WINDOW_SIZE / MAX_FRAME_SIZE values the
@@ -218,6 +222,8 @@ func (w *SrvWorld) noteSettingsSent(kv [][2]uint32) {
 	var v peerSettingsVal
 	for _, s := range kv {
 		switch s[0] {
+		case 1:
+			v.hasTable, v.table = true, int64(s[1])
 		case 4:
 			v.hasInit, v.init = true, int64(s[1])
 		case 5:
@@ -230,6 +236,17 @@ func (w *SrvWorld) noteSettingsSent(kv [][2]uint32) {
 func (w *SrvWorld) noteSettingsAcked() {
 	if w.ackedSettings < len(w.peerSettingsVals) {
 		v := w.peerSettingsVals[w.ackedSettings]
+		if v.hasTable && v.table < w.allowedTable {
+			// permissive: later, not yet acknowledged SETTINGS may raise it again
+			m := v.table
+			for _, u := range w.peerSettingsVals[w.ackedSettings+1:] {
+				if u.hasTable && u.table > m {
+					m = u.table
+				}
+			}
+			w.allowedTable = m
+			w.dec.SetAllowedMaxDynamicTableSize(uint32(m))
+		}
 		if v.hasInit {
 			w.ackedInitWin = v.init
 		}
@@ -272,6 +289,7 @@ func NewSrvWorld(sim *Sim, plan *SrvPlan) *SrvWorld {
 		tbl = uint32(plan.Peer.HeaderTableSize)
 	}
 	w.dec = hpack.NewDecoder(tbl, func(f hpack.HeaderField) { w.decOut = append(w.decOut, f) })
+	w.allowedTable = int64(tbl)
 	w.peerInitWin = 65535
 	if plan.Peer.InitialWindow >= 0 {
 		w.peerInitWin = plan.Peer.InitialWindow
@@ -517,6 +535,14 @@ func (w *SrvWorld) peerReceive() {
 }
 
 func (w *SrvWorld) onPeerFrame(f *Frame) {
+	if int64(f.Len) > w.permissiveMaxFrame() && w.FrameSizeViol == nil {
+		w.FrameSizeViol = &Violation{Property: "C18", Rule: "frame-over-peer-max", Sig: "frame-over-peer-max/" + ftName(f.Type),
+			Detail: fmt.Sprintf("%s frame #%d with a payload of %d bytes; the peer's SETTINGS_MAX_FRAME_SIZE is %d (most permissive reading: %d SETTINGS sent, %d acknowledged)", ftName(f.Type), f.Seq, f.Len, w.permissiveMaxFrame(), len(w.peerSettingsVals), w.ackedSettings)}
+	}
+	if f.Type == FSettings && f.Ack && w.SettingsAcks+1 > w.SettingsSentByPeer && w.AckViol == nil {
+		w.AckViol = &Violation{Property: "C18", Rule: "ack-without-settings", Sig: "ack-without-settings",
+			Detail: fmt.Sprintf("SETTINGS ACK #%d received after only %d SETTINGS frames were sent", w.SettingsAcks+1, w.SettingsSentByPeer)}
+	}
 	if w.contStream != 0 && (f.Type != FContinuation || f.Stream != w.contStream) {
 		w.Probes["server-interleaved-header-block"]++
 	}
@@ -952,7 +978,11 @@ func (w *SrvWorld) laneSend(l *laneState) {
 		w.noteSettingsSent(op.Settings)
 		for _, kv := range op.Settings {
 			if kv[0] == 1 {
-				w.dec.SetAllowedMaxDynamicTableSize(kv[1])
+				// a larger table may be used from now on; a smaller one binds the server from its ACK on
+				if int64(kv[1]) >= w.allowedTable {
+					w.allowedTable = int64(kv[1])
+					w.dec.SetAllowedMaxDynamicTableSize(kv[1])
+				}
 			}
 		}
 		w.PeerSettingsLog = append(w.PeerSettingsLog, PeerSettingsEvent{Settings: op.Settings, SentAtFrame: len(w.Frames), Step: w.sim.Steps})
